@@ -3,7 +3,7 @@
 import numpy as np
 
 from . import core
-from . import t_reduce, t_shape, t_linalg, t_methods, t_helpers  # noqa: F401  (fill core.TEMPLATES)
+from . import t_reduce, t_shape, t_linalg, t_methods, t_helpers, t_ufuncs  # noqa: F401  (fill core.TEMPLATES)
 
 import unyt
 from unyt import unyt_array, unyt_quantity
@@ -35,6 +35,8 @@ def mk_unyt(t, data, units, registry=None, factors=None):
     out = {}
     for name, (slot, shape, gen) in t.inputs.items():
         v = data[name]
+        distinct = bool(slot) and slot.endswith("c")  # "Xc": slot X, but labelled with a separate, equal Unit OBJECT
+        slot = slot[0] if slot else slot
         if slot is None or slot not in units or v.dtype.kind == "b" and False:
             out[name] = v.copy() if v.ndim else v[()]
             continue
@@ -42,6 +44,10 @@ def mk_unyt(t, data, units, registry=None, factors=None):
         if factors and slot in factors and factors[slot] != 1:
             x = x * factors[slot]
         u = units[slot]
+        if distinct:
+            from unyt.unit_object import Unit as _U
+
+            u = _U(u, registry=registry).copy()
         if x.ndim == 0:
             out[name] = unyt_quantity(x[()], u, registry=registry)
         else:
